@@ -121,4 +121,10 @@ pub open spec fn optvec_view(o: Option<Vec<u8>>) -> Option<Seq<u8>> {
 pub fn as_dyn_mut<'a, T: Storage>(x: &'a mut T) -> (r: &'a mut dyn Storage)
     ensures r.view() == old(x).view(), final(x).view() == final(r).view()
 { x }
+// identity coercion  &T -> &dyn Storage  (rule R3b: Verus accepts the unsizing of a shared reference but does not relate
+// the view of the trait object to the view of the value)   TRUSTED
+#[verifier::external_body]
+pub fn as_dyn_ref<'a, T: Storage>(x: &'a T) -> (r: &'a dyn Storage)
+    ensures r.view() == x.view()
+{ x }
 //@ canary base let m = IMap::<Seq<u8>, Seq<u8>>::empty();
